@@ -262,8 +262,10 @@ func init() {
 			{Pkg: "fasthttp", Func: "vhC07HeadTooLarge"},
 			{Pkg: "fasthttp", Func: "vhC07AnnouncedTooLarge", Quick: map[string]int{"maxLimit": 4}, Thorough: map[string]int{"maxLimit": 8}},
 			{Pkg: "fasthttp", Func: "vhC07PerRequestLimit"},
+			{Pkg: "fasthttp", Func: "vhC07ClientResponseLimit", Quick: map[string]int{"maxLimit": 6, "maxBody": 8}, Thorough: map[string]int{"maxLimit": 8, "maxBody": 9}},
 		},
-		Assume: []string{serveAssume,
+		Assume: []string{
+			"client side (vhC07ClientResponseLimit): the real HostClient with MaxResponseBodySize = L ∈ [1,maxLimit] against a scripted server answering with n ≤ maxBody arbitrary body bytes, fixed length / one chunk / delimited by the close in reads of ≤ 2 bytes: n ≤ L is returned whole, n > L is ErrBodyTooLarge; the decompressing *WithLimit helpers (gzip / deflate / brotli / zstd inflation) are outside — the codecs are not interpretable",serveAssume,
 			"server-side clauses only: MaxRequestBodySize = L symbolic in [1, maxLimit], a non-streamed POST with n ≤ maxBody arbitrary body bytes, fixed-length or chunked in one or two chunks, followed by a second request; ReadBufferSize = 64 with heads of 33..153 bytes",
 			"per-request limits (vhC07PerRequestLimit): server limit 3, HeaderReceived raises it to 9 for /up only; two POSTs (/up and /p in either order, 0..11 body bytes each, fixed-length or one chunk) on one keep-alive connection: each is dispatched exactly when its body fits the limit of its own request",
 			"announced sizes (vhC07AnnouncedTooLarge): Content-Length or a single chunk-size line announcing 1..40 bytes, the data arriving in later segments, limit L from MaxRequestBodySize or from a smaller per-request RequestConfig returned by HeaderReceived (server limit 64), with and without Expect: 100-continue, with and without a multipart/form-data content type; once the announcement exceeds L the data segment must never be read from the connection",
